@@ -351,7 +351,7 @@ func record(rec *RecRec) {
 	}
 }
 
-// recordWatched runs record under a 10 s watchdog (the calls take microseconds).
+// recordWatched runs record under a 30 s watchdog (the calls take microseconds).
 func recordWatched(rec *RecRec) {
 	done := make(chan struct{})
 	go func() {
